@@ -254,6 +254,7 @@ impl Prop for C08 {
                     _ => 0,
                 };
                 let mut cap = if *fixed { cap_at_least(payload.len().max(hist_len)) } else { None };
+                let mut noise_pre: Vec<u8> = Vec::new();
                 let (prefix, after) = match hist {
                     Hist::New => (vec![], 0),
                     Hist::AfterFrame(p) => {
@@ -281,9 +282,24 @@ impl Prop for C08 {
                         // a frame whose (n+1)-th data byte overflows ArrayBuf<n>; the second payload must fit n
                         let n = cap_at_least(payload.len()).unwrap_or(1025);
                         cap = Some(n);
-                        let mut f = crate::refmodel::transport::START.to_vec();
-                        f.extend(std::iter::repeat(0x33).take(n + 1));
-                        (f, 0)
+                        // second shape (every other case, when n is not a multiple of four): an unpadded frame of
+                        // L > n bytes ending in t = 1..3 x 0x1b with L - t <= n, so that the buffer overflows while the
+                        // withheld 0x1b are written back - which happens inside the end sequence, t bytes before its
+                        // end; those t bytes then are noise in front of g
+                        let l = (n / 4 + 1) * 4;
+                        if payload.len() % 2 == 1 && n % 4 != 0 {
+                            let tmin = l - n;
+                            let t = tmin + g.bytes().len() % (4 - tmin);
+                            let mut data = vec![0x33u8; l - t];
+                            data.extend(std::iter::repeat(0x1b).take(t));
+                            let f = ref_frame(&data);
+                            noise_pre = f[f.len() - t..].to_vec();
+                            (f[..f.len() - t].to_vec(), 0)
+                        } else {
+                            let mut f = crate::refmodel::transport::START.to_vec();
+                            f.extend(std::iter::repeat(0x33).take(n + 1));
+                            (f, 0)
+                        }
                     }
                     Hist::Partial(p, k, a) => {
                         let f = ref_frame(&p.bytes());
@@ -293,7 +309,8 @@ impl Prop for C08 {
                     Hist::NoiseThen(n, a) => (n.bytes(), *a),
                 };
                 let _ = cap_sel;
-                Input::Noise { prefix, after, cap, noise: g.bytes(), payload }
+                noise_pre.extend_from_slice(&g.bytes());
+                Input::Noise { prefix, after, cap, noise: noise_pre, payload }
             }
             Case::Cut { m1, k, m2, fixed } => {
                 let m1 = m1.bytes();
